@@ -3,7 +3,7 @@
 open Finset Real Spec Gen
 set_option linter.unusedVariables false
 
--- C04 sigmoid maps into (0,1): draws of a bounded parameter stay strictly inside the unit interval
+-- C03 C04 sigmoid maps into (0,1): draws of a bounded parameter stay strictly inside the unit interval
 theorem sigmoid_mem (y : ℝ) : 0 < sigmoid_x y ∧ sigmoid_x y < 1 := by
   unfold sigmoid_x; have := Real.exp_pos (-y)
   constructor
@@ -68,7 +68,7 @@ theorem to_unit_deriv (l u x : ℝ) (h : l < u) : HasDerivAt (to_unit_y l u) (Re
 theorem from_unit_lj_neg (l u x y : ℝ) : from_unit_lj l u y = -to_unit_lj l u x := by
   unfold from_unit_lj to_unit_lj; ring
 
--- C04 LogitTransform: inverse(forward(x)) = x for every x strictly inside the bounds (outside the clipping margin)
+-- C03 C04 LogitTransform: inverse(forward(x)) = x for every x strictly inside the bounds (outside the clipping margin)
 theorem logitT_roundtrip (l u x : ℝ) (h : l < u) (hx0 : l < x) (hx1 : x < u) : logitT_inv l u (logitT_fwd l u x) = x := by
   have hm := to_unit_mem l u x h hx0 hx1
   have hs := sigmoid_logit (to_unit_y l u x) hm.1 hm.2
@@ -78,7 +78,7 @@ theorem logitT_roundtrip (l u x : ℝ) (h : l < u) (hx0 : l < x) (hx1 : x < u) :
   have : u - l ≠ 0 := by linarith
   field_simp; ring
 
--- C04 LogitTransform: draws respect the declared bounds
+-- C03 C04 LogitTransform: draws respect the declared bounds
 theorem logitT_inv_mem (l u y : ℝ) (h : l < u) : l < logitT_inv l u y ∧ logitT_inv l u y < u := by
   have hm := sigmoid_mem y
   unfold sigmoid_x at hm
@@ -88,7 +88,7 @@ theorem logitT_inv_mem (l u y : ℝ) (h : l < u) : l < logitT_inv l u y ∧ logi
   · nlinarith [mul_pos hm.1 hd]
   · nlinarith [mul_pos (sub_pos.mpr hm.2) hd]
 
--- C04 LogitTransform: forward log-Jacobian = log of the true derivative
+-- C03 C04 LogitTransform: forward log-Jacobian = log of the true derivative
 theorem logitT_deriv (l u x : ℝ) (h : l < u) (hx0 : l < x) (hx1 : x < u) :
     HasDerivAt (logitT_fwd l u) (Real.exp (logitT_fwd_lj l u x)) x := by
   have hm := to_unit_mem l u x h hx0 hx1
@@ -102,7 +102,7 @@ theorem logitT_deriv (l u x : ℝ) (h : l < u) (hx0 : l < x) (hx1 : x < u) :
     funext x; unfold logitT_fwd logit_y to_unit_y; simp [Function.comp]
   rw [this]; exact hc
 
--- C04 LogitTransform: inverse log-Jacobian is the negative of the forward one at the corresponding point
+-- C03 C04 LogitTransform: inverse log-Jacobian is the negative of the forward one at the corresponding point
 theorem logitT_lj_inv_neg (l u x : ℝ) (h : l < u) (hx0 : l < x) (hx1 : x < u) :
     logitT_inv_lj l u (logitT_fwd l u x) = -logitT_fwd_lj l u x := by
   have hm := to_unit_mem l u x h hx0 hx1
@@ -141,7 +141,7 @@ theorem periodic_roundtrip (l u x : ℝ) (h : l < u) (hx0 : l ≤ x) (hx1 : x < 
   have e : periodic_fwd l u x = x := by unfold periodic_fwd; rw [hf]; simp
   rw [e]; unfold periodic_inv; rw [hf]; simp
 
--- C04 affine whitening: inverse(forward(x)) = x whenever the fitted scale is non-zero
+-- C03 C04 affine whitening: inverse(forward(x)) = x whenever the fitted scale is non-zero
 theorem affine_roundtrip (m s x : ℝ) (hs : s ≠ 0) : affine_inv m s (affine_fwd m s x) = x := by
   unfold affine_inv affine_fwd; field_simp; ring
 
@@ -155,7 +155,7 @@ theorem affine_deriv (m s x : ℝ) (hs : s ≠ 0) : HasDerivAt (affine_fwd m s) 
 theorem affine_lj_inv_neg (m s x y : ℝ) : affine_inv_lj m s y = -affine_fwd_lj m s x := by
   unfold affine_inv_lj affine_fwd_lj; ring
 
--- C04 ProbitTransform (with the three erf axioms): inverse(forward(x)) = x strictly inside the bounds
+-- C03 C04 ProbitTransform (with the three erf axioms): inverse(forward(x)) = x strictly inside the bounds
 theorem probitT_roundtrip (l u x : ℝ) (h : l < u) (hx0 : l < x) (hx1 : x < u) : probitT_inv l u (probitT_fwd l u x) = x := by
   have hm := to_unit_mem l u x h hx0 hx1
   unfold to_unit_y at hm
@@ -167,11 +167,11 @@ theorem probitT_roundtrip (l u x : ℝ) (h : l < u) (hx0 : l < x) (hx1 : x < u) 
   have : u - l ≠ 0 := by linarith
   field_simp; ring
 
--- C04 ProbitTransform: inverse log-Jacobian is the negative of the forward one at the corresponding point
+-- C03 C04 ProbitTransform: inverse log-Jacobian is the negative of the forward one at the corresponding point
 theorem probitT_lj_inv_neg (l u x : ℝ) : probitT_inv_lj l u (probitT_fwd l u x) = -probitT_fwd_lj l u x := by
   unfold probitT_inv_lj probitT_fwd_lj probitT_fwd; ring
 
--- C04 ProbitTransform: the inverse log-Jacobian is the log of the true derivative of the inverse map
+-- C03 C04 ProbitTransform: the inverse log-Jacobian is the log of the true derivative of the inverse map
 theorem probitT_inv_deriv (l u y : ℝ) (h : l < u) : HasDerivAt (probitT_inv l u) (Real.exp (probitT_inv_lj l u y)) y := by
   have hd : 0 < u - l := by linarith
   have h2 : (0:ℝ) < Real.sqrt 2 := by positivity
